@@ -3,6 +3,7 @@ package main
 // C10 — storage and key failures fail closed: fault enumeration per endpoint x storage call occurrence x fault kind.
 
 import (
+	"encoding/base64"
 	"fmt"
 	"net/url"
 	"strings"
@@ -195,6 +196,26 @@ func runC10(c *Ctx) {
 			}
 			if !closed {
 				c.issue(Issue{Kind: "violation", What: fmt.Sprintf("request does not end in an error reply after the fault (reply %s, HTTP %d)", outcome, rep.Code), Site: ep.name, Class: "not-closed:" + cls, Detail: detail})
+			}
+			// an error status does not close the reply by itself: nothing that follows the error text may be a SAML message
+			if rep.Code >= 400 {
+				leaked := ""
+				if strings.Contains(rep.Body, "<form") {
+					if f, ferr := parseForms(rep.Body); ferr == nil || f.Fields != nil {
+						if raw, berr := base64.StdEncoding.DecodeString(f.Fields["SAMLResponse"]); berr == nil && len(raw) > 0 {
+							if m, merr := parseMsg(raw); merr == nil && m != nil && (m.Status == provider.StatusCodeSuccess || m.NameID != "" || len(m.Attrs) > 0) {
+								leaked = "an auto-submit form with a " + statusShort(m.Status) + " SAMLResponse (NameID " + m.NameID + ")"
+							}
+						}
+					}
+				}
+				if leaked == "" && (strings.Contains(rep.Body, "Assertion") || strings.Contains(rep.Body, "AttributeStatement")) {
+					leaked = "assertion markup"
+				}
+				if leaked != "" {
+					detail["body_prefix"] = rep.Body[:min(400, len(rep.Body))]
+					c.issue(Issue{Kind: "violation", What: "the HTTP error reply after the fault is followed by " + leaked, Site: ep.name, Class: "message-after-error:" + cls, Detail: detail})
+				}
 			}
 			if d.Msg != nil && (d.Msg.NameID != "" || len(d.Msg.Attrs) > 0) {
 				c.issue(Issue{Kind: "violation", What: "user data in the reply after a fault", Site: ep.name, Class: "user-data:" + cls, Detail: detail})
